@@ -233,6 +233,10 @@ def trans(potential_forms, potential_form_builder):
   if getattr(second_form, 'potential_form', None) != 'as.constant':
     raise ConfigurationException("the second argument to the trans() potential modifier must be 'as.constant' found {}".format(second_form))
 
+  if second_form.next is not None or tuple(second_form.start) != (u">", 0.0):
+    # the shift is one number: ranges given with it would be dropped without a word
+    raise ConfigurationException("the second argument to the trans() potential modifier is a single 'as.constant', it cannot be given range markers or further ranges")
+
   if len(second_form.parameters) != 1:
     raise ConfigurationException("the second parameter to trans(), 'as.constant' should have exactly one parameter defining shift. {} parameters found.".format(len(second_form.parameters)))
 
